@@ -45,6 +45,7 @@
   `Q` and the bookkeeping identity holds for any number of passes.
 -/
 import Alpaqa.Proofs.C10History
+import Alpaqa.Proofs.C10Eig
 import Mathlib.Analysis.Real.Sqrt
 import Mathlib.Tactic.NormNum
 
@@ -538,6 +539,39 @@ theorem history_solve_least_squares_independent (hs : SqrtLaw α) (hsn : SqrtNon
     (fun r hr hle => absurd (lt_of_lt_of_le (abs_pos.mpr (hP r (by rw [hq.len]; exact hr)))
       (le_trans hle ht)) (lt_irrefl _))
 
+/-- **`get_min_eig()` / `get_max_eig()` after EVERY history** are the smallest / largest diagonal entry of the
+    current `get_R()` (`diagMin` / `diagMax`: folds of `min` / `max` over the pivots of the current window,
+    started at `±inf<config_t>`; `eig_bounds_are_extreme_pivots`): `add_column` updates them incrementally,
+    `remove_column` and `scale_R` recompute them (`update_eig_bounds`), `reset` restores `(+inf, −inf)`. -/
+theorem history_eig_bounds (hs : SqrtLaw α) (hsn : SqrtNonneg α) {fuel : ℕ} {giv : α → α → α × α × α}
+    (hg : GivensOK giv) {inf : α} {n m : ℕ} (hm : 0 < m) {s : LMQR α} {A : List (ℕ → α)}
+    (h : Reach fuel giv inf n m s A) :
+    s.minEig = diagMin s ∧ s.maxEig = diagMax s ∧ s.infc = inf := by
+  have key : EigOK s ∧ s.infc = inf := by
+    induction h with
+    | new => exact new_eig inf n m
+    | @add s A v hr hK ih =>
+      have hq := history_qrinv hs hsn hg hm hr
+      obtain ⟨e1, e2⟩ := addColumn_eig fuel s hq.ring (by rw [hq.hm]; exact hK) v ih.1
+      exact ⟨e1, e2.trans ih.2⟩
+    | @remove s A hr hK ih =>
+      obtain ⟨e1, e2⟩ := removeColumn_eig giv s (history_qrinv hs hsn hg hm hr).ring hK
+      exact ⟨e1, e2.trans ih.2⟩
+    | @reset s A _ ih => exact reset_eig inf s ih.2
+    | @scale s A c hr ih =>
+      obtain ⟨e1, e2⟩ := scaleR_eig s (history_qrinv hs hsn hg hm hr).ring c
+      exact ⟨e1, e2.trans ih.2⟩
+  exact ⟨key.1.1, key.1.2, key.2⟩
+
+/-- `diagMax` / `diagMin` are the extreme pivots: they bound every pivot and (non-empty window, `−inf` / `+inf`
+    below / above the pivots) are attained. -/
+theorem eig_bounds_are_extreme_pivots (s : LMQR α) :
+    ((∀ k < s.qIdx, s.getR k k ≤ diagMax s) ∧
+      (0 < s.qIdx → (∀ k < s.qIdx, -s.infc ≤ s.getR k k) → ∃ k < s.qIdx, diagMax s = s.getR k k)) ∧
+    ((∀ k < s.qIdx, diagMin s ≤ s.getR k k) ∧
+      (0 < s.qIdx → (∀ k < s.qIdx, s.getR k k ≤ s.infc) → ∃ k < s.qIdx, diagMin s = s.getR k k)) :=
+  ⟨diagMax_spec s, diagMin_spec s⟩
+
 /-! ### 4. Anderson acceleration -/
 
 /-- `m_AA = min(n, memory)` (anderson.hpp `resize`), and that is the capacity of the QR and of `G`. -/
@@ -736,6 +770,45 @@ theorem anderson_gamma_least_squares (hs : SqrtLaw α) (hsn : SqrtNonneg α) {fu
   rcases hpz with hpos | hP
   · exact pivot_ne_zero_of_nonneg_tol hpos ht
   · exact hP k (by rw [hlen]; exact hk)
+
+/-- the bounds inside the accelerator, after EVERY Anderson history -/
+theorem anderson_eig_bounds (hs : SqrtLaw α) (hsn : SqrtNonneg α) {fuel : ℕ} {giv : α → α → α × α × α}
+    (hg : GivensOK giv) {inf : α} {memory : ℕ} {mdf : α} {n : ℕ} (hm : 0 < min n memory) {a : AA α}
+    {W gs : List (ℕ → α)} {rl : ℕ → α} (h : AReach fuel giv inf memory mdf n a W gs rl) :
+    EigOK a.qr ∧ a.qr.infc = inf := by
+  induction h with
+  | init g0 r0 => exact reset_eig inf _ (new_eig inf _ _).2
+  | @reinit a W gs rl g0 r0 _ ih => exact reset_eig inf _ ih.2
+  | @compute a W gs rl g r hr ih =>
+    have hi := anderson_history hs hsn hg hm hr
+    have h1 : EigOK (a.qr1 giv) ∧ (a.qr1 giv).infc = inf := by
+      unfold AA.qr1
+      split_ifs with hf
+      · have hfull : W.length = min n memory := by
+          simpa [aaFull, lmqrNumColumns, hi.qr.len, hi.qr.hm] using hf
+        obtain ⟨e1, e2⟩ := removeColumn_eig giv a.qr hi.qr.ring (by rw [hi.qr.len, hfull]; exact hm)
+        exact ⟨e1, e2.trans ih.2⟩
+      · exact ih
+    obtain ⟨e1, e2⟩ := addColumn_eig fuel (a.qr1 giv) (aa_qr1 giv hg hi).ring (aa_qr1_lt giv hg hi)
+      (fun j => r j - readV a.rLast j) h1.1
+    exact ⟨e1, e2.trans h1.2⟩
+  | @reset a W gs rl _ ih => exact reset_eig inf _ ih.2
+  | @scale a W gs rl c hr ih =>
+    obtain ⟨e1, e2⟩ := scaleR_eig a.qr (anderson_history hs hsn hg hm hr).qr.ring c
+    exact ⟨e1, e2.trans ih.2⟩
+
+/-- **Anderson's pivot threshold is `min_div_fac ×` the largest pivot of the window it solves over** — the
+    documented "minimum divisor …, scaled by the maximum eigenvalue of R" for the CURRENT `R`, after every
+    history (no stale bound from columns that left the window). -/
+theorem anderson_threshold_current (hs : SqrtLaw α) (hsn : SqrtNonneg α) {fuel : ℕ}
+    {giv : α → α → α × α × α} (hg : GivensOK giv) {inf : α} {memory : ℕ} {mdf : α} {n : ℕ}
+    (hm : 0 < min n memory) {a : AA α} {W gs : List (ℕ → α)} {rl : ℕ → α}
+    (h : AReach fuel giv inf memory mdf n a W gs rl) (g r : ℕ → α) :
+    aaTol (a.qrNext fuel giv r).maxEig a.minDivFac = diagMax (a.qrNext fuel giv r) * a.minDivFac :=
+  by
+    have := (anderson_eig_bounds hs hsn hg hm (AReach.compute g r h)).1.2
+    show aaTol (a.computeCore fuel giv g r).1.qr.maxEig a.minDivFac = _
+    rw [this]; rfl
 
 /-- `min_div_fac` is never changed -/
 theorem anderson_min_div_fac {fuel : ℕ} {giv : α → α → α × α × α} {inf : α} {memory : ℕ} {mdf : α}
@@ -1050,6 +1123,10 @@ example : True := by
   have e7 := fun z hz => ls_unique sW.n sW.qIdx sW.Q.get sW.getR _ hA hO (vR 1 2 3) _ hx hP
     (fun i k hik => getR_upper_triangular sW hik) z hz
   trivial
+
+/-- `history_eig_bounds` on the wrapped state and on the dependent-column history -/
+example : sW.minEig = diagMin sW ∧ sW.maxEig = diagMax sW ∧ sW.infc = 1000 :=
+  history_eig_bounds sqrtLaw_real sqrtNonneg_real gE_ok (by norm_num) sW_facts.1
 
 /-! #### A history with a DEPENDENT column over `ℝ` (every-history theorems)
 
